@@ -5,6 +5,7 @@ from concurrent.futures import ProcessPoolExecutor, as_completed
 
 ROOT = os.path.dirname(os.path.dirname(os.path.abspath(__file__)))
 PY = os.path.join(ROOT, ".venv", "bin", "python")
+OUT = os.environ.get("GVC_OUT", ROOT)     # evidence/ and replays/ go here (the seed matrix redirects them)
 
 
 class Ob(dict):
@@ -124,9 +125,9 @@ def native(pid, mode, payload=None, timeout=3600):
 
 
 def write_replay(pid, ob, native_result):
-    os.makedirs(os.path.join(ROOT, "replays"), exist_ok=True)
+    os.makedirs(os.path.join(OUT, "replays"), exist_ok=True)
     h = hashlib.sha1((ob["name"] + json.dumps(ob.get("model"), sort_keys=True, default=str)).encode()).hexdigest()[:10]
-    path = os.path.join(ROOT, "replays", f"{pid}-{h}.json")
+    path = os.path.join(OUT, "replays", f"{pid}-{h}.json")
     json.dump({"property": pid, "obligation": ob["name"], "kind": ob["kind"], "detail": ob["detail"],
                "solver_model": ob.get("model"), "structure": ob.get("structure"), "replay_request": ob.get("replay"),
                "native": native_result}, open(path, "w"), indent=1, default=str)
@@ -287,8 +288,8 @@ def run_property(pid, tier, module, seed=0):
         "property_id": pid, "tier": tier, "seed": seed, "level": level, "coverage": cov,
         "assumptions": module.ASSUMPTIONS, "wall_s": round(time.time() - t0, 2), "violations": len(violations),
     }
-    os.makedirs(os.path.join(ROOT, "evidence"), exist_ok=True)
-    json.dump(ev, open(os.path.join(ROOT, "evidence", f"{pid}.json"), "w"), indent=1, default=str)
+    os.makedirs(os.path.join(OUT, "evidence"), exist_ok=True)
+    json.dump(ev, open(os.path.join(OUT, "evidence", f"{pid}.json"), "w"), indent=1, default=str)
     # report
     print(f"[{pid}] tier={tier} obligations={len(counted)} proved={len(proved)} refuted={len(refuted)} "
           f"undecided={len(undecided)} errors={len(errors)} covers={cov['covers_ok']}/{len(covers)} "
